@@ -118,7 +118,7 @@ class Frame(object):
 
 class State(object):
     __slots__ = ("store", "frames", "trace", "facts", "nfacts", "pc", "sites", "visits", "nfid",
-                 "steps", "notes")
+                 "steps", "notes", "choices")
 
     def copy(self):
         s = State()
@@ -133,6 +133,7 @@ class State(object):
         s.nfid = self.nfid
         s.steps = self.steps
         s.notes = list(self.notes)
+        s.choices = dict(self.choices)
         return s
 
 
@@ -183,7 +184,7 @@ INTRINSIC_BIN = {
 
 
 class Walker(object):
-    def __init__(self, prog, max_paths=20000, max_steps=400000, loop_bound=2, max_depth=60):
+    def __init__(self, prog, max_paths=20000, max_steps=400000, loop_bound=16, max_depth=60):
         self.prog = prog
         self.max_paths = max_paths
         self.max_steps = max_steps
@@ -256,6 +257,8 @@ class Walker(object):
         v, changed, newroot = self._load(state, root, proj, 0)
         if changed and _write_back:
             state.store[obj] = newroot
+        if isinstance(v, SymObj) and v.name in state.choices:
+            v = self.materialise(v, state, state.choices[v.name])
         return v
 
     def _load(self, state, v, proj, i):
@@ -267,6 +270,8 @@ class Walker(object):
         if isinstance(v, SymObj):
             if p[0] == "v":
                 v = self.materialise(v, state, p[1])
+            elif v.name in state.choices:
+                v = self.materialise(v, state, state.choices[v.name])
             elif v.ty[0] == "adt" and self.prog.adt(v.ty[1]) and self.prog.adt(v.ty[1])["kind"] == "enum":
                 raise WalkError("projection %r into unsplit enum %r" % (p, v))
             else:
@@ -444,6 +449,8 @@ class Walker(object):
                 proj.append(("i", e[1]))
             elif k == "i":
                 iv = self.load(state, (frame.fid, e[1]), ())
+                if isinstance(iv, T) and not iv.is_const():
+                    iv = self.simplify(state, iv)
                 if isinstance(iv, T) and iv.is_const():
                     proj.append(("i", iv.val))
                 elif isinstance(iv, T):
@@ -977,6 +984,7 @@ class Walker(object):
         s.nfid = 0
         s.steps = 0
         s.notes = []
+        s.choices = {}
         return s
 
     def push_frame(self, state, fn, genv, args, dest, ret_block, caller_span=None, body=None):
@@ -1080,9 +1088,14 @@ class Walker(object):
         if adt is None or adt["kind"] != "enum":
             raise WalkError("discriminant of non-enum %r" % (so,))
         n = len(adt["variants"])
+        # an unsplit symbolic enum may have been copied to several places: the choice is recorded by name and
+        # applied wherever a copy is loaded
+        if so.name in st.choices:
+            raise WalkError("enum %s already split" % so.name)
         self.stats["forks"] += 1
         for vi in range(n - 1, -1, -1):
             s2 = st.copy()
+            s2.choices[so.name] = vi
             val = self.materialise(so, s2, vi)
             self.store_to(s2, se.obj, se.proj, val)
             s2.pc.append(("variant", so.name, adt["variants"][vi]["name"]))
@@ -1368,6 +1381,8 @@ class Walker(object):
             if isinstance(ret, EffectResult):
                 havoc = ret.havoc
                 ret = ret.ret
+                if ret is None:
+                    ret = self.symval("ret%d:%s" % (len(st.trace), path.split("::")[-1]), dest_ty)
         if ret is None:
             n = len(st.trace)
             ret = self.symval("ret%d:%s" % (n, path.split("::")[-1]), dest_ty)
